@@ -82,7 +82,7 @@ def showTbl (layout : Bool) (t : T) : String :=
     "{" ++ joinWith "," (es.map fun (i, v) => s!"k{i}={v}") ++ "}E" ++ toString t.elements
 
 /-- one operation on the object list: new object list and answer (`none` = dangling id) -/
-def step (objs : List T) : Op → Option (List T × String)
+def step (layout : Bool) (objs : List T) : Op → Option (List T × String)
   | .new c => some (objs ++ [Tbl.new c], s!"o:{objs.length}")
   | .set m k v => do
       let t ← objs[m]?
@@ -146,7 +146,9 @@ def step (objs : List T) : Op → Option (List T × String)
       | .panic => pure (objs, "panic")
   | .items m => do
       let t ← objs[m]?
-      pure (objs, "[" ++ joinWith "," (t.toList.map fun (k, v) => s!"k{k.id}={v}") ++ "]")
+      let es := t.toList.map fun (k, v) => (k.id, v)
+      let es := if layout then es else es.foldr insertSorted []
+      pure (objs, "[" ++ joinWith "," (es.map fun (i, v) => s!"k{i}={v}") ++ "]")
   | .add m k => do
       let t ← objs[m]?
       -- sets are tables whose value is irrelevant (printed as 0)
@@ -213,7 +215,7 @@ def showChanges (layout : Bool) (before after : List T) : String :=
 def runShow (layout : Bool) : List T → List Op → List String → Option (List String)
   | _, [], acc => some acc.reverse
   | objs, op :: ops, acc =>
-    match step objs op with
+    match step layout objs op with
     | none => none
     | some (objs', a) => runShow layout objs' ops ((a ++ "|" ++ showChanges layout objs objs') :: acc)
 
